@@ -9,6 +9,7 @@ from __future__ import annotations
 
 import itertools
 import json
+import pickle
 import sys
 import unicodedata
 
@@ -212,7 +213,7 @@ def _pathlib_suffixes(name):
 
 def check_path_algebra(tier, out):
     from yarl import URL
-    kinds = ("a", "b.c", "", "%2F", "é", "x.tar.gz", "n.é", "p.a%20b")
+    kinds = ("a", "b.c", "", "%2F", "é", "x.tar.gz", "n.é", "p.a%20b", ".hgrc", "doc.")
     rel = _paths(kinds, 3 if tier == "quick" else 4)
     bases = []
     for p in [""] + ["/" + r for r in rel]:
@@ -484,6 +485,15 @@ def check_decode(tier, out):
                         out.fail(f"{name}(text) != reference decoding", {"unquoter": name, "text": s}, got, want)
                         if out.full:
                             return
+    # (b1) digits that are not ASCII are not hex digits
+    for s in ("%\u0663\u0663", "%4\u0663", "%\u06631", "a%\uff11\uff11b", "%\u00b2\u00b2"):
+        if not out.mine():
+            continue
+        for name, cfg in UNQUOTER_CONFIGS.items():
+            got = real[name](s)
+            want = ref_unquote(s, **cfg)
+            if got != want:
+                out.fail(f"{name}(text) != reference decoding", {"unquoter": name, "text": s}, got, want)
     # (b2) results do not depend on earlier calls (C08): a text that ends in an incomplete escape
     # sequence followed by a text that starts with continuation bytes, on the long-lived instances
     tails = ("%E2%82", "%C3", "%F0%9F", "%F0%9F%98", "a%E2", "%e2%82", "%C3%")
@@ -646,6 +656,9 @@ def fixed_point_cases(tier):
                         for q in queries:
                             for f in frags:
                                 yield (s + ":" if s else "") + "//" + ui + h + po + p + q + f
+    # authorities made of delimiters only
+    for s in ("//@", "//:", "//@:", "foo://@/p", "//@:?#", "foo://:@/p", "foo://:80/p", "foo://u@/p", "//:@"):
+        yield s
     # authority-less
     for s in ("", "mailto", "http"):
         for p in ("", "a", "a/b", "/a", "./a:b", "a%3Ab", "../x", "a//b", "/.//x", "é"):
@@ -675,6 +688,10 @@ def _fp_class(u):
 
 
 def _fixed(u, inp, out, how):
+    if u.scheme in ("http", "https", "ws", "wss", "ftp") and not u.raw_host:
+        # a special scheme without a host is not valid input for the parser (it demands a host);
+        # build() and with_scheme() do not check it -- outside C03's "valid input ... valid host"
+        return
     cls = _fp_class(u)
     try:
         s1 = str(u)
@@ -693,6 +710,8 @@ def _fixed(u, inp, out, how):
             # an explicit default port is dropped by str(): documented normalisation (C17), and
             # the property's component list names `port`, which agrees
             return
+        if cls is None and u._val[1] == "" and all(c in ("raw_host", "host") and x == "" and y is None for c, x, y in d):
+            cls = "C09-vanishing-authority"     # same root cause as the pickled-copy difference below
         out.fail(f"components of URL(str(url)) differ ({how})", inp, d[:3], "identical components", cls)
 
 
@@ -710,6 +729,15 @@ def check_fixed_point(tier, out):
         _fixed(u, inp, out, "parsed")
         if u.raw_host is not None and any(seg in (".", "..") for seg in u.raw_path.split("/")):
             out.fail("a parsed URL with an authority keeps a dot segment (C15)", inp, u.raw_path, "no dot segment")
+        # C09: the eagerly filled accessors agree with those of a pickled copy (computed lazily)
+        v = pickle.loads(pickle.dumps(u))
+        a, b = _view(u), _view(v)
+        if a != b:
+            d = [(c, x, y) for c, x, y in zip(COMPONENTS, a, b) if x != y]
+            cls = None
+            if u._val[1] == "" and all(c in ("raw_host", "host") and x == "" and y is None for c, x, y in d):
+                cls = "C09-vanishing-authority"
+            out.fail("eager accessors differ from those of a pickled copy (C09)", inp, d[:3], "identical", cls)
         if out.i % 7 == 0:
             mods = (("with_fragment('a#b')", lambda x: x.with_fragment("a#b")), ("with_path('/p/../q r')", lambda x: x.with_path("/p/../q r")),
                     ("with_query('a=b c')", lambda x: x.with_query("a=b c")), ("with_scheme('https')", lambda x: x.with_scheme("https")),
@@ -831,6 +859,116 @@ def check_query_algebra(tier, out):
         if out.full:
             return
 
+
+# =============================================================== conformance: real function vs executable specification
+
+def _outcome(fn, *args):
+    try:
+        return ("ok", fn(*args))
+    except (ValueError, TypeError, UnicodeError) as e:
+        return ("raise", ValueError.__name__ if isinstance(e, ValueError) else type(e).__name__)
+    except Exception as e:  # noqa: BLE001
+        return ("raise", type(e).__name__)
+
+
+def check_conformance_parse(tier, out):
+    """yarl._parse.split_url / split_netloc / make_netloc against the executable specifications the
+    proofs are stated against (contracts/spec_parse.py, RFC 3986 Appendix B and 3.2), on all short
+    strings over the delimiter alphabet -- a fallback that still decides when a restructured
+    function leaves the contract's cut points undecided"""
+    from yarl import _parse
+    from contracts import spec_parse
+    alpha = ("a", ":", "/", "?", "#", "[", "]", "@", "\n", "1", "+", ".", "\t", "Z")
+    L = 5 if tier == "quick" else 6
+    for n in range(0, L + 1):
+        for tup in itertools.product(alpha if n <= 4 else alpha[:10], repeat=n):
+            if not out.mine():
+                continue
+            s = "".join(tup)
+            got, want = _outcome(_parse.split_url, s), _outcome(spec_parse.split_url, s)
+            out.note(got[0] == "ok" and got[1][1] != "", {"url": s, "parts": got[1] if got[0] == "ok" else got})
+            if got[0] == "ok":
+                got = ("ok", tuple(got[1]))
+            if want[0] == "ok":
+                want = ("ok", tuple(want[1]))
+            if got != want:
+                out.fail("split_url != RFC 3986 Appendix B decomposition (specification)", {"url": s}, got, want)
+                if out.full:
+                    return
+    nalpha = ("a", ":", "@", "[", "]", "1", "%", ".", "0", "6")
+    for n in range(0, (6 if tier == "quick" else 7) + 1):
+        for tup in itertools.product(nalpha if n <= 5 else nalpha[:7], repeat=n):
+            if not out.mine():
+                continue
+            s = "".join(tup)
+            got, want = _outcome(_parse.split_netloc, s), _outcome(spec_parse.split_netloc, s)
+            if got[0] == "ok":
+                got = ("ok", tuple(got[1]))
+            if want[0] == "ok":
+                want = ("ok", tuple(want[1]))
+            if got != want:
+                out.fail("split_netloc != RFC 3986 3.2 decomposition (specification)", {"netloc": s}, got, want)
+                if out.full:
+                    return
+    parts = (None, "", "u", "p w", "a:b", "é")
+    for user in parts:
+        for pw in parts:
+            for host in (None, "", "h", "[::1]"):
+                for port in (None, 0, 80, 65535):
+                    for enc in (False, True):
+                        if not out.mine():
+                            continue
+                        got = _outcome(_parse.make_netloc, user, pw, host, port, enc)
+                        want = _outcome(spec_parse.make_netloc, user, pw, host, port, enc)
+                        if got != want:
+                            out.fail("make_netloc != RFC 3986 3.2 assembly (specification)",
+                                     {"user": user, "password": pw, "host": host, "port": port, "encode": enc}, got, want)
+
+
+def check_conformance_path(tier, out):
+    """yarl._path.normalize_path (the real function) against RFC 3986 5.2.4 literally, on rooted
+    paths of up to 6 (quick) / 7 (thorough) segments over 7 kinds"""
+    from yarl._path import normalize_path
+    kinds = (".", "..", "", "a", ".a", "a.", "...")
+    L = 6 if tier == "quick" else 7
+    for n in range(0, L + 1):
+        for segs in itertools.product(kinds, repeat=n):
+            if not out.mine():
+                continue
+            path = "/" + "/".join(segs)
+            got = normalize_path(path)
+            want = remove_dot_segments(path)
+            out.note(got != path, {"path": path, "normalized": got})
+            if got != want:
+                out.fail("normalize_path(path) != RFC 3986 5.2.4 remove_dot_segments(path)", {"path": path}, got, want)
+                if out.full:
+                    return
+
+
+def check_conformance_host(tier, out):
+    """yarl._url._encode_host against the specification (contracts/spec_url.py:encode_host) on a
+    corpus of reg-names, IPv4 / IPv6 literals with and without zone ids (upper and lower case),
+    IDN labels and every ASCII character in host position, with validation on and off"""
+    from yarl._url import _encode_host
+    from contracts import spec_url
+    hosts = ["", "example.com", "EXAMPLE.Com", "a_b", "a%2Fb", "a%2fb", "a%zz", "xn--e1afmkfd", "\u0445\u043e\u0441\u0442.\u0440\u0444",
+             "\u0425\u041e\u0421\u0422.\u0420\u0424", "b\u00fccher.de", "B\u00dcCHER.DE", "127.0.0.1", "127.000.0.1", "1.2.3", "1.2.3.4%eth0", "1.2.3.4%Eth0",
+             "::1", "::", "FE80::1", "fe80::1%eth0", "FE80::1%Eth0", "fe80::1%25en0", "2001:DB8::FF00:42:8329", "::ffff:1.2.3.4",
+             "v1.x:y", "V1.X:Y", "a:b", "1", "0x7f.1", "h\u00e9.example", "\u00ad", "a..b", "-a-", "a" * 64 + ".com",
+             "fe80::1%a:b", "1.2.3.4%a:b", "::1%", "::1%\u00e9"]
+    for c in range(32, 127):
+        hosts.append("a" + chr(c) + "b")
+        hosts.append("::1%z" + chr(c))
+    for h in hosts:
+        for validate in (False, True):
+            if not out.mine():
+                continue
+            got = _outcome(_encode_host.__wrapped__, h, validate)
+            want = _outcome(spec_url.encode_host, h, validate)
+            out.note(got[0] == "ok" and got[1] != h, {"host": h, "validate": validate, "encoded": got[1] if got[0] == "ok" else got})
+            if got != want:
+                out.fail("_encode_host != specification", {"host": h, "validate_host": validate}, got, want)
+
 def check_build(tier, out):
     """URL.build over authority / host / port / path alternatives: the result is usable (str, hash,
     accessors raise nothing but ValueError/TypeError at construction) and is a fixed point (C03, C19)"""
@@ -844,31 +982,48 @@ def check_build(tier, out):
                         continue
                     if not out.mine():
                         continue
-                    args = dict(scheme=scheme, path=path, **kw)
-                    inp = {"build": args}
-                    try:
-                        u = URL.build(**args)
-                    except (ValueError, TypeError):
-                        continue
-                    except Exception as e:  # noqa: BLE001
-                        out.fail("build raised something other than ValueError/TypeError (C19)", inp, f"{type(e).__name__}: {e}", "ValueError/TypeError")
-                        continue
-                    out.note(True, {"build": args, "str": None})
-                    try:
-                        str(u), hash(u), u == u, u.raw_host, u.port, u.raw_path, u.query_string, bool(u), repr(u), u.human_repr()
-                    except Exception as e:  # noqa: BLE001
-                        out.fail("an object returned by build() is unusable (C19)", inp, f"{type(e).__name__}: {e}", "usable URL")
-                        continue
-                    if not (u.scheme in ("http", "https", "ws", "wss", "ftp") and not u.raw_host):
-                        # (a special scheme without a host is not valid input for the parser; build() does not
-                        # check it -- outside C03's "valid input")
-                        _fixed(u, inp, out, "built")
-                    if u.raw_host is not None and any(seg in (".", "..") for seg in u.raw_path.split("/")):
-                        out.fail("a built URL with an authority keeps a dot segment (C15)", inp, u.raw_path, "no dot segment")
+                    for port in ((None,) if path not in ("", "/p") else (None, 0, 80, 8080, 65535)):
+                        args = dict(scheme=scheme, path=path, **kw)
+                        if port is not None:
+                            if "authority" in kw:
+                                continue
+                            args["port"] = port
+                        _build_case(URL, args, out)
     return
 
 
-CHECKS = {"build": check_build, "query_algebra": check_query_algebra, "join": check_join, "path_algebra": check_path_algebra, "decode": check_decode, "human_repr": check_human_repr,
+def _build_case(URL, args, out):
+    from yarl._url import DEFAULT_PORTS
+    scheme = args["scheme"]
+    inp = {"build": args}
+    try:
+        u = URL.build(**args)
+    except (ValueError, TypeError):
+        return
+    except Exception as e:  # noqa: BLE001
+        out.fail("build raised something other than ValueError/TypeError (C19)", inp, f"{type(e).__name__}: {e}", "ValueError/TypeError")
+        return
+    out.note(True, {"build": args, "str": None})
+    try:
+        str(u), hash(u), u == u, u.raw_host, u.port, u.raw_path, u.query_string, bool(u), repr(u), u.human_repr()
+    except Exception as e:  # noqa: BLE001
+        out.fail("an object returned by build() is unusable (C19)", inp, f"{type(e).__name__}: {e}", "usable URL")
+        return
+    if not (u.scheme in ("http", "https", "ws", "wss", "ftp") and not u.raw_host):
+        # (a special scheme without a host is not valid input for the parser; build() does not
+        # check it -- outside C03's "valid input")
+        _fixed(u, inp, out, "built")
+    if u.raw_host is not None and any(seg in (".", "..") for seg in u.raw_path.split("/")):
+        out.fail("a built URL with an authority keeps a dot segment (C15)", inp, u.raw_path, "no dot segment")
+    port = args.get("port")
+    if port is not None and u.raw_host:
+        want = None if port == DEFAULT_PORTS.get(scheme) else port
+        if u.explicit_port != want or (want is not None and f":{want}" not in str(u)):
+            out.fail("build(port=p): the explicit port is not p (C17)", inp, (u.explicit_port, str(u)), want)
+
+
+CHECKS = {"conformance_parse": check_conformance_parse, "conformance_path": check_conformance_path,
+          "conformance_host": check_conformance_host, "build": check_build, "query_algebra": check_query_algebra, "join": check_join, "path_algebra": check_path_algebra, "decode": check_decode, "human_repr": check_human_repr,
           "fixed_point": check_fixed_point}
 
 
